@@ -163,7 +163,32 @@ fn gen_case(rng: &mut Rng, big_ok: bool) -> Vec<String> {
                 ntok += 2;
                 "reopen".to_string()
             }
+            97 => {
+                // a multipart upload that never commits: aborted, or dropped
+                let np = rng.usize(3);
+                format!("{} {k} {} {}", if rng.chance(1, 2) { "mabort" } else { "mdrop" }, if np == 0 { "-".to_string() } else { (0..np).map(|_| size(rng).min(60).to_string()).collect::<Vec<_>>().join(",") }, rng.below(50))
+            }
+            98 => {
+                // one delete_stream over several locations (missing keys and repeats included)
+                let n = 1 + rng.usize(4);
+                format!("dels {}", (0..n).map(|_| rng.pick(&keys).to_string()).collect::<Vec<_>>().join(","))
+            }
             _ => "reopen".to_string(),
+        };
+        // the same call through the `ObjectStoreExt` convenience method
+        let w: Vec<&str> = op.split(' ').collect();
+        let op = match w.as_slice() {
+            ["copy", a, b, "ow"] if rng.chance(1, 4) => format!("copy-x {a} {b}"),
+            ["copy", a, b, "cr"] if rng.chance(1, 2) => format!("copy-ine {a} {b}"),
+            ["ren", a, b, "ow"] if rng.chance(1, 4) => format!("ren-x {a} {b}"),
+            ["ren", a, b, "cr"] if rng.chance(1, 2) => format!("ren-ine {a} {b}"),
+            ["put", k, "ow", sz, seed] if rng.chance(1, 6) => format!("put-x {k} {sz} {seed}"),
+            ["get", k, "head"] if rng.chance(1, 2) => format!("head {k}"),
+            ["get", k, r] if r.starts_with("r=b:") && rng.chance(1, 2) => {
+                let p: Vec<&str> = r[4..].split(':').collect();
+                format!("getr {k} {} {}", p[0], p[1])
+            }
+            _ => op.clone(),
         };
         ops.push(op);
     }
@@ -292,7 +317,12 @@ async fn run_case(ops: &[String]) -> Result<CaseOut, String> {
         // `via-b <op>`: the op goes through a second, freshly opened wrapper instance B over the same
         // backend; instance A keeps its (now possibly stale) metadata cache
         let (via_b, op_full) = (op.starts_with("via-b "), op);
-        let op: &String = &op.strip_prefix("via-b ").map(|s| s.to_string()).unwrap_or_else(|| op.clone());
+        let exec_op: String = op.strip_prefix("via-b ").map(|s| s.to_string()).unwrap_or_else(|| op.clone());
+        // bookkeeping and known shapes work on the `*_opts` spelling; the stores are entered through the op as written
+        let op: &String = &canonical_op(&exec_op);
+        if *op != exec_op {
+            out.hits.push(format!("entry:{}", exec_op.split(' ').next().unwrap_or("")));
+        }
         let w: Vec<&str> = op.split(' ').collect();
         if w[0] == "tasks" {
             tasks = Some(conc::parse_tasks(op).ok_or_else(|| format!("bad tasks line: {op}"))?);
@@ -368,6 +398,20 @@ async fn run_case(ops: &[String]) -> Result<CaseOut, String> {
                 out.noref_from = out.noref_from.min(i + 1);
             }
         }
+        // `dels k1,k2,…`: elements whose key is absent (or was deleted earlier in the same batch) are the
+        // known shape `delete-missing-key`; computed on the reference before the call
+        let mut dels_missing: Vec<bool> = vec![];
+        if let ["dels", ks] = w.as_slice() {
+            let mut seen: BTreeSet<&str> = BTreeSet::new();
+            for k in ks.split(',').filter(|k| *k != "-") {
+                let absent = match key_path(k) { Some(p) => rf.store.head(&p).await.is_err(), None => true };
+                dels_missing.push(absent || !seen.insert(k));
+            }
+            if dels_missing.iter().any(|m| *m) {
+                out.hits.push("known-shape:delete-missing-key".into());
+                out.failures.push(Failure { key: "?delete-missing-key".into(), at: i, ..Default::default() });
+            }
+        }
         // expectations of the bookkeeping oracle, taken before the call
         let mut expect: Option<(&'static str, bool, String)> = None;
         if let ["put", k, m, ..] = w.as_slice() {
@@ -384,14 +428,14 @@ async fn run_case(ops: &[String]) -> Result<CaseOut, String> {
         let a = if via_b {
             let mut bstore = build_store(fl, wr.backend.clone());
             std::mem::swap(&mut wr.store, &mut bstore);
-            let r = wr.exec(op).await;
+            let r = wr.exec(&exec_op).await;
             std::mem::swap(&mut wr.store, &mut bstore);
             out.hits.push("via-b".into());
             r.ok_or_else(|| format!("bad op: {op}"))?
         } else {
-            wr.exec(op).await.ok_or_else(|| format!("bad op: {op}"))?
+            wr.exec(&exec_op).await.ok_or_else(|| format!("bad op: {op}"))?
         };
-        let b = rf.exec(op).await.ok_or_else(|| format!("bad op: {op}"))?;
+        let b = rf.exec(&exec_op).await.ok_or_else(|| format!("bad op: {op}"))?;
         if !via_b && let Some(old) = &ref_before_b {
             // instance A may still answer from the document it has cached: outside the single-writer
             // contract both the reference's answer now and its answer before B's write are accepted
@@ -427,6 +471,20 @@ async fn run_case(ops: &[String]) -> Result<CaseOut, String> {
         if let ["del", k] = w.as_slice() && ok {
             latest.remove(*k);
             legacy_keys.remove(*k);
+        }
+        if let ["dels", ks] = w.as_slice() {
+            // the batch: every listed key is gone afterwards; the answers differ from InMemory's exactly on
+            // the missing elements (narrow: anything else is a failure of its own)
+            let inner = |l: &str| l.strip_prefix("ok [").and_then(|x| x.strip_suffix(']')).map(|x| x.split(',').filter(|e| !e.is_empty()).map(|e| e.to_string()).collect::<Vec<_>>()).unwrap_or_default();
+            let (ea, eb) = (inner(&a.line), inner(&b.line));
+            let expected: Vec<String> = dels_missing.iter().map(|m| if *m { "err:notfound".to_string() } else { "ok".to_string() }).collect();
+            if ea != expected || eb.iter().any(|e| e != "ok") || eb.len() != expected.len() {
+                out.failures.push(Failure { key: "dels-unexpected-answer".into(), what: format!("{op}: delete_stream answers per location, in input order: ok for a present key, NotFound for a missing one (known shape)"), expected: format!("ok [{}]", expected.join(",")), observed: a.line.clone(), at: i });
+            }
+            for k in ks.split(',').filter(|k| *k != "-") {
+                latest.remove(k);
+                legacy_keys.remove(k);
+            }
         }
         if let Some(k) = committed {
             legacy_keys.remove(k);
@@ -649,10 +707,11 @@ fn main() {
 
     // evaluate in parallel, merge in case order
     let nthreads = std::thread::available_parallelism().map(|n| n.get()).unwrap_or(4).min(16).min(cases.len().max(1));
+    let mut model_cov: BTreeMap<String, u64> = BTreeMap::new();
     let results: Vec<CaseResult> = {
         let mut slots: Vec<Option<CaseResult>> = (0..cases.len()).map(|_| None).collect();
         let chunks: Vec<Vec<usize>> = (0..nthreads).map(|t| (t..cases.len()).step_by(nthreads).collect()).collect();
-        let outs: Vec<Vec<(usize, CaseResult)>> = std::thread::scope(|s| {
+        let outs: Vec<(Vec<(usize, CaseResult)>, Option<String>)> = std::thread::scope(|s| {
             let hs: Vec<_> = chunks
                 .iter()
                 .map(|idxs| {
@@ -661,15 +720,25 @@ fn main() {
                     s.spawn(move || {
                         let rt = tokio::runtime::Builder::new_current_thread().enable_all().build().unwrap();
                         let mut model = if search { None } else { ModelProc::from_args(args) };
-                        idxs.iter().map(|&i| (i, eval(&rt, &cases[i].1, &mut model))).collect::<Vec<_>>()
+                        let v = idxs.iter().map(|&i| (i, eval(&rt, &cases[i].1, &mut model))).collect::<Vec<_>>();
+                        // which branches of the model this worker's share of the run visited
+                        let cov = model.as_mut().map(|m| m.ask("coverage"));
+                        (v, cov)
                     })
                 })
                 .collect();
             hs.into_iter().map(|h| h.join().expect("worker")).collect()
         });
-        for v in outs {
+        for (v, cov) in outs {
             for (i, r) in v {
                 slots[i] = Some(r);
+            }
+            if let Some(c) = cov.as_deref().and_then(|c| c.strip_prefix("cov ")) {
+                for kv in c.split(' ') {
+                    if let Some((k, n)) = kv.rsplit_once('=') {
+                        *model_cov.entry(k.to_string()).or_insert(0u64) += n.parse::<u64>().unwrap_or(0);
+                    }
+                }
             }
         }
         slots.into_iter().map(|s| s.unwrap()).collect()
@@ -910,5 +979,28 @@ fn main() {
     }
     rep.notes.push(format!("{ncorpus} corpus case(s) run first; {} worker threads", nthreads));
     rep.measured.insert("timestamps".into(), json!("commit times are separated by >= 3 ms of wall clock by the harness; compared by rank only"));
+    // branch coverage of the model under the correspondence run (counters kept by the Lean driver)
+    if !model_cov.is_empty() {
+        let own = |k: &str| !(k.starts_with("crash:") || k.starts_with("gc"));
+        let mut unvisited: Vec<String> = vec![];
+        let (mut tags, mut visited) = (0u64, 0u64);
+        for (k, n) in &model_cov {
+            if !own(k) {
+                continue;
+            }
+            tags += 1;
+            rep.hit_n(&format!("model:{k}"), *n);
+            if *n == 0 {
+                unvisited.push(k.clone());
+            } else {
+                visited += 1;
+            }
+        }
+        rep.measured.insert(
+            "model_branch_coverage".into(),
+            json!({"tags": tags, "visited": visited, "unvisited": unvisited,
+                   "what": "branches of the Lean model (op kind x key presence x mode x outcome, the 81 rows of the get-precondition table, range kinds, cache hit/miss/stale, crash cut positions, GC outcomes) counted by the driver while it answered the generated cases; histogram keys `model:<tag>`"}),
+        );
+    }
     rep.write(&args);
 }
